@@ -206,6 +206,12 @@ func (r *resolver) ResolveFunction(s string, f *parser.Function) (err error) {
 		if err := r.ResolveType(v.Type); err != nil {
 			return fmt.Errorf("resolve argument %q of %q of %q: %w from file %s", v.Name, f.Name, s, err, r.ast.Filename)
 		}
+		if v.IsSetDefault() {
+			// an argument may carry a default value like a struct field
+			if err := r.ResolveConstValue(v.Default); err != nil {
+				return fmt.Errorf("resolve default value of argument %q of %q of %q: %w from file %s", v.Name, f.Name, s, err, r.ast.Filename)
+			}
+		}
 	}
 	for _, v := range f.Throws {
 		if err := r.ResolveType(v.Type); err != nil {
